@@ -191,6 +191,39 @@ def genFilesBeforeFix (pps : List PP) : List Nat → List (List Str) → List St
       let r := genFile pps ss f
       r.1 :: genFilesBeforeFix pps r.2 fs
 
+/-! ### How the generator assembles its processor list (`CodeGenerator._handle_post_processors`)
+
+The caller's optional list is augmented from the language configuration: a `LimitEmptyLines(limit_empty_lines)` if that
+key exists and the list holds no limiter, then a `TrimTrailingWhitespace()` if `trim_trailing_whitespace` is true and
+the list holds no trimmer. -/
+
+/-- A post-processor as the assembly sees it (`other k`: any user object, file post-processors included). -/
+inductive Item where
+  | trim
+  | limit (n : Nat)
+  | other (k : Nat)
+deriving DecidableEq, Repr
+
+def Item.isLimit : Item → Bool | .limit _ => true | _ => false
+def Item.isTrim : Item → Bool | .trim => true | _ => false
+
+def augmentLimit (given : Option (List Item)) (n : Nat) : Option (List Item) :=
+  match given with
+  | none => some [.limit n]
+  | some l => if l.any Item.isLimit then some l else some (l ++ [.limit n])
+
+def augmentTrim (given : Option (List Item)) : Option (List Item) :=
+  match given with
+  | none => some [.trim]
+  | some l => if l.any Item.isTrim then some l else some (l ++ [.trim])
+
+/-- `_handle_post_processors`: `cfgLimit = none` is the `KeyError` branch. -/
+def assemble (given : Option (List Item)) (cfgLimit : Option Nat) (cfgTrim : Bool) : Option (List Item) :=
+  let g1 := match cfgLimit with
+    | some n => augmentLimit given n
+    | none => given
+  if cfgTrim then augmentTrim g1 else g1
+
 /-! ### Vocabulary for stating the limiter contract -/
 
 /-- The elided line `("", "")`: writes nothing. -/
